@@ -137,7 +137,7 @@ type UnitResult struct {
 
 func (e *Engine) NewUnit(fn *ssa.Function, fs *FuncSpec) *Unit {
 	u := &Unit{eng: e, pkg: e.pkg, fn: fn, fs: fs, decls: NewDecls(), loops: map[*ssa.BasicBlock]*Loop{}, heapSorts: map[string]Sort{},
-		assumed: map[string]bool{}, callOrd: map[string]int{}, pdoms: map[*ssa.Function]map[*ssa.BasicBlock]*ssa.BasicBlock{}, noMerge: os.Getenv("EBU_NOMERGE") != ""}
+		assumed: map[string]bool{}, callOrd: map[string]int{}, pdoms: map[*ssa.Function]map[*ssa.BasicBlock]*ssa.BasicBlock{}, lastArgTypes: map[string][]types.Type{}, noMerge: os.Getenv("EBU_NOMERGE") != ""}
 	if fs != nil {
 		u.props = fs.Props
 	}
@@ -203,6 +203,21 @@ func (e *Engine) VerifyFunc(name string) (*UnitResult, error) {
 				continue
 			}
 		}
+		if name, base, mode, ok := u.lockedExpr(env, c); ok {
+			// the caller holds the lock: its invariant holds and is the
+			// acquisition state for acq()
+			st.locks = append(st.locks, LockHeld{key: name + "@" + base.S, mode: mode, name: name, level: u.lockLevel(name), base: base})
+			for _, li := range e.spec.LockInvs {
+				if li.Struct+"."+li.Mu == name {
+					lenv := u.newEnv(st)
+					lenv.names = map[string]SV{li.This: {V: base, Typ: types.NewPointer(e.lookupStruct(u.pkg, li.Struct))}}
+					st.assume(u.evalBool(lenv, li.C.Expr))
+				}
+			}
+			st.acq = st.snapshot()
+			u.entryLocks++
+			continue
+		}
 		st.assume(u.evalBool(env, c.Expr))
 	}
 	st.entry = st.snapshot()
@@ -211,6 +226,7 @@ func (e *Engine) VerifyFunc(name string) (*UnitResult, error) {
 	nreq := len(st.pc)
 	_ = nreq
 
+	u.checkChanInvClosers(st.clone())
 	outs := u.execFunc(st, fn, args, binds)
 	u.feas.close()
 	for _, o := range outs {
@@ -307,9 +323,16 @@ func (u *Unit) checkExit(o Outcome, fs *FuncSpec, params map[string]SV) {
 	}
 	goal := True
 	why := ""
-	for _, h := range st.locks {
+	for i, h := range st.locks {
+		if i < u.entryLocks {
+			continue // held by the caller on entry (requires locked(...))
+		}
 		goal = False
 		why += " " + h.name
+	}
+	if len(st.locks) < u.entryLocks {
+		goal = False
+		why += " (a lock held by the caller was released)"
 	}
 	u.addOblig(st, "lockset.exit", "", u.propsFor("C03"), goal, exitInstr, "every lock acquired is released on this exit path (still held:"+why+")")
 	tg := True
